@@ -120,6 +120,11 @@ func init() {
 			cs.Templates["rootset_b.txt"] = "{% set u = 'B' %}{% set p = 'q' %}[{{ u }}{{ t }}]{% for i in 1..3 %}{% set t = i %}{% endfor %}{{ t }}"
 			cs.Templates["rootlib.html"] = "{% macro m(a) %}m{{ a }}{% endmacro %}"
 			entries = append(entries, "rootset_a.html", "rootset_b.txt")
+			// every filter of the Twig environment (two templates: the filters'
+			// argument forms differ), on values of the call's own context
+			cs.Templates["twigfilters.html"] = c18TwigFilters
+			cs.Templates["twigfilters2.txt"] = c18TwigFilters2
+			entries = append(entries, "twigfilters.html", "twigfilters2.txt", "twigfilters.html")
 			cs.Templates["payload.js"] = "var x = '{{ p }}';"
 			cs.Templates["payload.html"] = "<b>{{ p }}</b>{% block a %}{{ p }}{% endblock %}"
 			cs.Templates["payload.txt"] = "{{ p }}"
@@ -130,7 +135,7 @@ func init() {
 			for i := 0; i < n; i++ {
 				call := sb.Call{Kind: rapid.SampledFrom([]string{"execute", "execute", "parse", "safe"}).Draw(t, "kind"),
 					Entry: rapid.SampledFrom(entries).Draw(t, "entry"),
-					Ctx:   map[string]sb.V{"p": {K: "str", S: "<'\"&" + fmt.Sprint(i)}, "x": {K: "num", N: float64(i)}, "sel": {K: "bool", B: true}}}
+					Ctx:   map[string]sb.V{"p": {K: "str", S: "<'\"&" + fmt.Sprint(i)}, "x": {K: "num", N: float64(i)}, "sel": {K: "bool", B: true}, "when": {K: "time"}}}
 				// in some workloads many calls pass a nil context map
 				if nilCtx && rapid.Bool().Draw(t, "nil") {
 					call.Ctx = nil
@@ -186,6 +191,14 @@ const c18AllOps = `{{ x + 1 }}{{ x - 1 }}{{ x * 2 }}{{ x / 4 }}{{ x // 3 }}{{ x 
 	`{% for k, v in {a: x} if v %}{{ k }}{% endfor %}{{ "i#{x}j#{p}" }}{{ [1, x][1] }}{{ {k: x}.k }}{{ {k: x}['k'] }}` +
 	`{{ cat(x, p, [x], {a: 1}) }}{{ x|wrap(1, 'z')|up }}{{ x is odd }}{{ x is not divisible by(3) }}{{ id(p)|fid }}{{ add(x, 2) }}{{ probe('x') }}{{ who() }}` +
 	`{% if x > 100 %}a{% elseif x > 1 %}b{% else %}c{% endif %}{% set y = x * 2 %}{{ y }}{% do id(y) %}{# comment #}{% verbatim %}{{ raw }}{% endverbatim %}`
+
+// c18TwigFilters applies every deterministic filter of the Twig environment.
+const c18TwigFilters = `{{ when|date('jS F Y, l H:i:s') }}|{{ when|date('D, d M y S') }}|{{ when|date('Y-m-d') }}|{{ (0 - x)|abs }}|{{ nope|default(p) }}|{% for r in [1, 2, x, 4, 5]|batch(2, 'f') %}{{ r|join(',') }};{% endfor %}|` +
+	`{{ p|capitalize }}|{{ [x, 'b']|first }}|{{ [x, 'b']|last }}|{{ 'ab'|first }}|{{ '%s-%d'|format(p, x) }}|{{ [1, x]|join('+') }}|{{ {a: x, b: [p]}|json_encode }}|{{ {k1: x}|keys|join }}|{{ [1, x, 3]|length }}|{{ p|length }}|{{ 'ABc'|lower }}|` +
+	`{{ [1]|merge([x])|join }}|{{ "a\nb"|nl2br }}|{{ (x * 1234.5678)|number_format(2, ',', '.') }}|{{ p|raw }}|{{ 'hello %n%'|replace({'%n%': p}) }}|{{ [1, x, 3]|reverse|join }}|{{ 'abc'|reverse }}|{{ (x / 3)|round(2) }}|{{ (x / 3)|round(1, 'floor') }}`
+
+const c18TwigFilters2 = `{{ [1, 2, x, 4]|slice(1, 2)|join }}|{{ 'abcdef'|slice(x % 3, 2) }}|{{ [3, x, 1]|sort|join }}|{{ 'a,b,' ~ x|split(',')|join('/') }}|{{ 'a,b,c'|split(',', 2)|length }}|{{ '<b>' ~ p ~ '</b>'|striptags }}|{{ 'the ' ~ x ~ ' apples'|title }}|` +
+	`{{ '  ' ~ p ~ '  '|trim }}|{{ 'xx' ~ x ~ 'xx'|trim('x') }}|{{ 'abc'|upper }}|{{ p|url_encode }}|{{ {a: x, 'b c': p}|url_encode }}|{{ p|escape }}|{{ p|escape('js') }}|{{ when|date('S') }}{{ when|date('\\S\\t S') }}|{{ 'now'|date('Y') > 2000 }}|{{ x|date_modify('+1 day') }}|{{ p|convert_encoding('UTF-8', 'UTF-8') }}`
 
 // c18Captures nests every capturing construct.
 const c18Captures = `{% macro w(a, b) %}[{{ a }}|{{ b }}{% set in %}in{{ a }}{% endset %}{{ in }}]{% endmacro %}{% macro v(a) %}({{ _self.w(a, 'v') }}){% endmacro %}` +
